@@ -16,7 +16,7 @@ use serde_json::json;
 use std::collections::HashMap;
 
 pub const CLIB: &str = "(define-library (clib)
-  (export next (rename peek look) readg setn! (rename raw-step step) use-step (rename sa sb) (rename sb sa))
+  (export next (rename peek look) readg setn! (rename raw-step step) use-step (rename sa sb) (rename sb sa) (rename next advance) (rename peek look-too))
   (import (scheme base))
   (begin
     (define n 0)
@@ -38,7 +38,18 @@ pub const MLIB: &str = "(define-library (mlib)
     (define (helper) (list 'm (look)))
     (define (bump) (next) (next))))";
 
-/// reference view of the two libraries: exports (internal, external), imported libraries, body
+/// a library WITHOUT an import declaration: its scope holds its own definitions only (getg and
+/// setg! refer to a g that only the importer may define)
+pub const PLAIN: &str = "(define-library (plain)
+  (export getg setg! own-of (rename own-of own-alias) bump-own!)
+  (begin
+    (define own 'plain-own)
+    (define (getg) g)
+    (define (setg! v) (set! g v))
+    (define (own-of) own)
+    (define (bump-own!) (set! own 'bumped) own)))";
+
+/// reference view of the libraries: exports (internal, external), imported libraries, body
 struct LibDef {
     exports: Vec<(&'static str, &'static str)>,
     imports: Vec<&'static str>,
@@ -50,9 +61,17 @@ fn libdefs() -> HashMap<&'static str, LibDef> {
     m.insert(
         "clib",
         LibDef {
-            exports: vec![("next", "next"), ("peek", "look"), ("readg", "readg"), ("setn!", "setn!"), ("raw-step", "step"), ("use-step", "use-step"), ("sa", "sb"), ("sb", "sa")],
+            exports: vec![("next", "next"), ("peek", "look"), ("readg", "readg"), ("setn!", "setn!"), ("raw-step", "step"), ("use-step", "use-step"), ("sa", "sb"), ("sb", "sa"), ("next", "advance"), ("peek", "look-too")],
             imports: vec![],
             body: parse_all("(define n 0) (define (h) (set! n (+ n 1)) n) (define (next) (h)) (define (peek) n) (define (readg) g) (define (setn! v) (set! n v) n) (define (step) 'internal-step) (define (raw-step) 'raw-step) (define (use-step) (step)) (define sa 'internal-sa) (define sb 'internal-sb)"),
+        },
+    );
+    m.insert(
+        "plain",
+        LibDef {
+            exports: vec![("getg", "getg"), ("setg!", "setg!"), ("own-of", "own-of"), ("own-of", "own-alias"), ("bump-own!", "bump-own!")],
+            imports: vec![],
+            body: parse_all("(define own 'plain-own) (define (getg) g) (define (setg! v) (set! g v)) (define (own-of) own) (define (bump-own!) (set! own 'bumped) own)"),
         },
     );
     m.insert(
@@ -110,9 +129,11 @@ pub fn configs() -> Vec<Config> {
         out.push(Config {
             name: "P->L twice",
             import: "(import (scheme base) (only (clib) next readg) (rename (except (clib) readg) (next next2) (look look2) (setn! setn2!)))",
-            sets: vec![("clib", Some(vec![("next", "next"), ("readg", "readg")])), ("clib", Some(vec![("next", "next2"), ("look", "look2"), ("setn!", "setn2!"), ("step", "step"), ("use-step", "use-step"), ("sa", "sa"), ("sb", "sb")]))],
+            sets: vec![("clib", Some(vec![("next", "next"), ("readg", "readg")])), ("clib", Some(vec![("next", "next2"), ("look", "look2"), ("setn!", "setn2!"), ("step", "step"), ("use-step", "use-step"), ("sa", "sa"), ("sb", "sb"), ("advance", "advance"), ("look-too", "look-too")]))],
             file_supply,
         });
+        out.push(Config { name: "P->plain (no import declaration)", import: "(import (scheme base) (plain))", sets: vec![("plain", None)], file_supply });
+        out.push(Config { name: "P->L,P->plain", import: "(import (scheme base) (clib) (plain))", sets: vec![("clib", None), ("plain", None)], file_supply });
         out.push(Config { name: "P->M then P->L", import: "(import (scheme base) (mlib) (clib))", sets: vec![("mlib", None), ("clib", None)], file_supply });
     }
     out
@@ -133,9 +154,13 @@ pub const OPS: &[&str] = &[
     "(set! next (lambda () 'assigned))",
     "(define (peek) 'importer-peek)",
     "(set! look (lambda () 'importer-look))",
+    "(advance)",
+    "(setg! 9)",
+    "(bump-own!)",
+    "(define own 'importer-own)",
 ];
 
-pub const PROBES: &[&str] = &["h", "n", "g", "peek", "helper", "(step)", "(use-step)", "sa", "sb", "raw-step", "(readg)", "(look)", "(look2)", "(mhelper)", "(next)", "(bump)", "(next2)", "(look)"];
+pub const PROBES: &[&str] = &["h", "n", "g", "peek", "helper", "(step)", "(use-step)", "sa", "sb", "raw-step", "(readg)", "(look)", "(look2)", "(mhelper)", "(next)", "(bump)", "(next2)", "(look)", "(look-too)", "(advance)", "(getg)", "(own-of)", "(own-alias)", "own", "(look)"];
 
 pub struct Sys {
     cfg: usize,
@@ -150,6 +175,7 @@ impl Sys {
         std::fs::create_dir_all(&dir).expect("scratch");
         std::fs::write(dir.join("clib.sld"), CLIB).unwrap();
         std::fs::write(dir.join("mlib.sld"), MLIB).unwrap();
+        std::fs::write(dir.join("plain.sld"), PLAIN).unwrap();
         Sys { cfg, ops: OPS.iter().map(|o| parse1(o)).collect(), probes: PROBES.iter().map(|o| parse1(o)).collect(), dir }
     }
     fn start(&self) -> (Interp, Machine) {
@@ -160,6 +186,7 @@ impl Sys {
         } else {
             it.it.register_library_factory(LibraryFactory::from_char_stream(&library_name!("clib"), CLIB.chars()).expect("clib source"));
             it.it.register_library_factory(LibraryFactory::from_char_stream(&library_name!("mlib"), MLIB.chars()).expect("mlib source"));
+            it.it.register_library_factory(LibraryFactory::from_char_stream(&library_name!("plain"), PLAIN.chars()).expect("plain source"));
         }
         let o = it.eval(c.import);
         assert!(matches!(o, Outcome::Val(_)), "import failed on the implementation: {} => {}", c.import, o);
@@ -272,7 +299,7 @@ pub fn run(ctx: &Ctx) -> i32 {
             bounds: json!({"depth": depth, "per_configuration": per_cfg}),
             assumptions: vec!["reference module system: one instance per library per program, library environments see only their imports and definitions".into()],
             wall_s: ctx.elapsed(),
-            extra: json!({"clib": CLIB, "mlib": MLIB, "operations": OPS, "probes": PROBES}),
+            extra: json!({"clib": CLIB, "mlib": MLIB, "plain": PLAIN, "operations": OPS, "probes": PROBES}),
         },
     )
 }
